@@ -6,7 +6,7 @@ import Exetera.Gen.Kernels
 
     {"op":"gen_kernel","kernel":"apply_spans_first","args":[{"arr":[0,2,3]},{"arr":[7,8,9]},{"none":true}],"fuel":100}
 
-  Arguments: {"int":n} {"bool":b} {"arr":[ints]} {"barr":[bools]} {"none":true}.  A subscript that was negative is reported
+  Arguments: {"int":n} {"bool":b} {"arr":[ints]} {"barr":[bools]} {"arr2":[[ints],…]} {"none":true}.  A subscript that was negative is reported
   as the error tag `negative_index` (the translated kernels treat it as an error branch, Python wraps around); an
   IndexError the kernel raises itself (`raise IndexError(...)`) carries `"raised": true` — unlike an out-of-range
   subscript it is defined behaviour of the compiled code too.
@@ -27,6 +27,9 @@ def decodeVal (j : Json) : Except String Val :=
   match j.getObjVal? "barr" with
   | .ok v => (fromJson? v : Except String (List Bool)).map Val.barr
   | .error _ =>
+  match j.getObjVal? "arr2" with
+  | .ok v => (fromJson? v : Except String (List (List Int))).map Val.arr2
+  | .error _ =>
   match j.getObjVal? "none" with
   | .ok _ => .ok Val.none
   | .error _ => .error "bad argument"
@@ -37,6 +40,7 @@ partial def encodeVal : Val → Json
   | .bool b => Json.bool b
   | .arr a => Driver.ints a
   | .barr a => Json.arr (a.map Json.bool).toArray
+  | .arr2 a => Json.arr (a.map Driver.ints).toArray
   | .tup vs => Json.arr (vs.map encodeVal).toArray
 
 def errOut : Err → Json
